@@ -311,7 +311,7 @@ class Interp:
             if attr == "__name__":
                 return base.name
             raise Undecided(f"class attribute {base.name}.{attr}")
-        if type(base).__name__ == "SimpleNamespace" and hasattr(base, attr):
+        if type(base).__name__ in ("SimpleNamespace", "NoneResult") and hasattr(base, attr):
             return getattr(base, attr)
         if isinstance(base, SuperProxy):
             mro = base.obj.cls.mro() if isinstance(base.obj, Obj) else []
